@@ -193,6 +193,15 @@ def run(case, tmp):
     check_data(data, g2.data, f"save/{loader} (byte order "
                f"{case['byteorder']})")
 
+    # ---- the grid edited and saved again under the same name
+    p0 = case["poke"]
+    old = data.flat[p0]
+    g[p0] = dt.type(1) if old != 1 else dt.type(0)
+    g.save(fbil)
+    g4 = Grid.from_header(fhdr)
+    check_data(np.asarray(g.data), g4.data, "second save to the same files")
+    g[p0] = old
+
     # ---- dictionary
     # (numpy scalars in the dictionary are converted the usual way)
     d = json.loads(json.dumps(g.to_dict(), default=lambda o: o.item()
